@@ -398,12 +398,19 @@ def agg_avg(members):
 
 
 def lex_before(ka, kb, descs):
-    """ka sorts strictly before kb; keys are lists of V (non-null by precondition)"""
+    """ka sorts strictly before kb; keys are lists of V. On the reference side keys are non-null by precondition; on the SQL
+    side a NULL key can still occur (a row the reference does not have): NULL is the smallest value, as in SQLite (first in
+    ASC, last in DESC) - the engine every model is replayed on."""
     res = F
     for a, b, d in reversed(list(zip(ka, kb, descs))):
         x, y = unify(a, b)
-        lt = (x > y) if d else (x < y)
-        res = bor(lt, band(x == y, res))
+        both = band(bnot(a.null), bnot(b.null))
+        if d:
+            lt = bor(band(both, x > y), band(bnot(a.null), b.null))
+        else:
+            lt = bor(band(both, x < y), band(a.null, bnot(b.null)))
+        eq = bor(band(a.null, b.null), band(both, x == y))
+        res = bor(lt, band(eq, res))
     return res
 
 
